@@ -906,6 +906,134 @@ func c04(c *Ctx) {
 			"later updates of that key overwrite another attribute or index out of range: "+bad)
 	}
 
+	// R11 readers de-duplicate: the de-duplication that Attributes() and snapshot() rely on runs whenever a key may be held twice
+	c.Rule("R11", "E3 must-pass + dominance (cache invalidation)", "dedupeAttrs de-duplicates on every call, or skips it only under a boolean span field that every append to attributes resets (before the append, unconditionally, or on every path after it): the exported span holds each key once", 1)
+	if fn := c.Fn(ix, "R11", "(*recordingSpan).dedupeAttrs"); fn != nil {
+		g := ix.FG(fn)
+		fAttrs := lookupField(ix.Pkg, "recordingSpan", "attributes")
+		work := ix.Func("(*recordingSpan).dedupeAttrsFromRecord")
+		isWork := func(n ast.Node) bool {
+			call, ok := n.(*ast.CallExpr)
+			return ok && work != nil && callToDecl(info, work)(call)
+		}
+		through := toSet(g.Match(isWork))
+		if len(through) == 0 {
+			// the de-duplication is written out in dedupeAttrs itself: a store to s.attributes
+			through = toSet(g.Match(func(n ast.Node) bool {
+				return assignRHS(n, func(e ast.Expr) bool { return isField(info, e, fAttrs) }) != nil
+			}))
+		}
+		key := "sdk/trace|(*recordingSpan).dedupeAttrs|no call returns without de-duplicating on stale knowledge"
+		// exits that avoid the work: the edges that let them through name the guard
+		var guardFields []*types.Var
+		undecidedGuard := ""
+		seen, _ := g.ReachFromEntry(func(x *GNode) bool { return through[x] }, nil)
+		if len(through) == 0 {
+			c.Violation("R11", key, at(ix.M, fn.Pos()), "dedupeAttrs no longer de-duplicates")
+		} else if !seen[g.Exit] {
+			c.OK("R11", key, at(ix.M, fn.Pos()), "every path through dedupeAttrs de-duplicates")
+		} else {
+			for x := range seen {
+				for _, e := range x.Succs {
+					if e.Cond == nil || !seen[e.To] {
+						continue
+					}
+					// does this edge lead to the exit without the work while its sibling leads to the work?
+					s2, _ := g.ReachFromEdge(e, func(y *GNode) bool { return through[y] })
+					if !s2[g.Exit] {
+						continue
+					}
+					reachesWork := false
+					for y := range s2 {
+						for _, e2 := range y.Succs {
+							if through[e2.To] {
+								reachesWork = true
+							}
+						}
+					}
+					if reachesWork {
+						continue // not the deciding edge
+					}
+					// the deciding condition
+					cond := unparen(e.Cond)
+					if u, ok := cond.(*ast.UnaryExpr); ok && u.Op == token.NOT {
+						cond = unparen(u.X)
+					}
+					if isLenCmp(info, cond, func(z ast.Expr) bool { return isField(info, z, fAttrs) }) {
+						continue // nothing (or a single attribute) to de-duplicate
+					}
+					if fv, _ := fieldOf(info, cond); fv != nil {
+						if b, isB := fv.Type().Underlying().(*types.Basic); isB && b.Info()&types.IsBoolean != 0 {
+							guardFields = append(guardFields, fv.Origin())
+							continue
+						}
+					}
+					undecidedGuard = exprStr(e.Cond)
+				}
+			}
+			switch {
+			case undecidedGuard != "":
+				c.Undecided("R11", key, at(ix.M, fn.Pos()), "dedupeAttrs can return without de-duplicating under `"+undecidedGuard+"`: whether that knowledge is kept in step with every writer of attributes is an invariant over all of them that this rule cannot establish (only a boolean field reset at every append is decided)")
+			case len(guardFields) == 0:
+				c.OK("R11", key, at(ix.M, fn.Pos()), "skipped only when there is nothing to de-duplicate")
+			default:
+				bad := ""
+				var badPos token.Pos
+				napp := 0
+				for _, gf := range guardFields {
+					isReset := func(n ast.Node) bool {
+						as, ok := n.(*ast.AssignStmt)
+						if !ok || len(as.Lhs) != len(as.Rhs) {
+							return false
+						}
+						for i, l := range as.Lhs {
+							if fv, _ := fieldOf(info, l); fv != nil && fv.Origin() == gf {
+								if tv, ok := info.Types[as.Rhs[i]]; ok && tv.Value != nil && tv.Value.Kind() == constant.Bool && !constant.BoolVal(tv.Value) {
+									return true
+								}
+							}
+						}
+						return false
+					}
+					for _, f := range ix.All {
+						if f.Body() == nil {
+							continue
+						}
+						fg := ix.FG(f)
+						apps := fg.Match(func(n ast.Node) bool {
+							r := assignRHS(n, func(e ast.Expr) bool { return isField(info, e, fAttrs) })
+							call, ok := unparen(r).(*ast.CallExpr)
+							return r != nil && ok && builtinName(info, call) == "append"
+						})
+						if len(apps) == 0 {
+							continue
+						}
+						if of := ix.Outer(f); of != nil && (of == fn || of == work) {
+							continue // the de-duplication itself rebuilds the slice
+						}
+						resets := toSet(fg.Match(func(n ast.Node) bool { return isReset(n) || isWork(n) }))
+						for _, a := range apps {
+							napp++
+							if dom, _ := fg.DominatedByNodes(a, resets); dom {
+								continue
+							}
+							if must, _ := fg.MustPassBeforeExit(a, resets); must {
+								continue
+							}
+							bad, badPos = "the append in "+f.Name+" is neither preceded on every path by "+gf.Name()+" = false nor followed by it (or by a de-duplication) on every path to the exit", a.N.Pos()
+						}
+					}
+				}
+				pos := fn.Pos()
+				if bad != "" {
+					pos = badPos
+				}
+				c.Check(bad == "" && napp > 0, "R11", key, at(ix.M, pos), itoa(napp)+" append(s) to attributes, each resets the flag",
+					"a key added twice stays twice in the exported span because readers skip the de-duplication: "+bad)
+			}
+		}
+	}
+
 	// R6 snapshot complete
 	c.Rule("R6", "E8 fieldcover + provenance", "snapshot() assigns every field of struct snapshot, scalar ones on all paths, each from the like-named span state; a guarded copy reads only what its guard examined", 18)
 	ruleSnapshotComplete(c, ix, "R6")
@@ -1436,4 +1564,24 @@ func exemptReason(ix *PkgIndex, table map[string]string, f *FuncInfo) (string, b
 		}
 	}
 	return "", false
+}
+
+// isLenCmp: cond compares len(x) (x accepted by isX) with an integer constant.
+func isLenCmp(info *types.Info, cond ast.Expr, isX func(ast.Expr) bool) bool {
+	be, ok := unparen(cond).(*ast.BinaryExpr)
+	if !ok {
+		return false
+	}
+	switch be.Op {
+	case token.EQL, token.NEQ, token.LSS, token.LEQ, token.GTR, token.GEQ:
+	default:
+		return false
+	}
+	isLen := func(e ast.Expr) bool {
+		call, ok := unparen(e).(*ast.CallExpr)
+		return ok && builtinName(info, call) == "len" && len(call.Args) == 1 && isX(call.Args[0])
+	}
+	_, cx := constInt(info, be.X)
+	_, cy := constInt(info, be.Y)
+	return (isLen(be.X) && cy) || (isLen(be.Y) && cx)
 }
